@@ -96,7 +96,9 @@ def group_events_using_async_information(
             async_groups[async_event_types[event.event_type]].append(event)
         else:
             non_async_groups.append([event])
-    groups = list(async_groups.values()) + non_async_groups
+    groups = [
+        group for group in async_groups.values() if group
+    ] + non_async_groups
     return groups
 
 
